@@ -8,6 +8,7 @@ import SslModel.Model.SpecIO
 import SslModel.Model.TyText
 import SslModel.Model.ValText
 import SslModel.Model.StdLib
+import SslModel.Model.Conc
 /-! Model side of the correspondence: one request per line on stdin, one canonical answer per
     line on stdout.  Import-free apart from the model, so it links as a native executable. -/
 open Ssl
@@ -192,6 +193,54 @@ def handleVal (line : String) : String :=
       | none => "(unparsable)"
     | _ => "(bad-request)"
 
+/-! `conc-all <cells> <init,…> <thread>;<thread>;…` with thread = `cell:op:rhs,…` (or `cell:read`):
+    the set of (final cells, per-thread outputs) over ALL interleavings; `conc-seq` the one of
+    running the threads one after the other -/
+def parseAOp : String → Option Conc.AOp
+  | "set" => some .set | "add" => some .add | "sub" => some .sub | "mul" => some .mul | "div" => some .div
+  | "mod" => some .mod | "shl" => some .shl | "shr" => some .shr | "band" => some .band | "bor" => some .bor
+  | "xor" => some .xor | "pow" => some .pow | _ => none
+
+def parseConcOp (s : String) : Option Conc.Op :=
+  match s.splitOn ":" with
+  | [c, "read"] => c.toNat?.map Conc.Op.read
+  | [c, o, r] =>
+    match c.toNat?, parseAOp o, r.toInt? with
+    | some c, some o, some r => some (.assign c o (BitVec.ofInt 64 r))
+    | _, _, _ => none
+  | _ => none
+
+def showOut : Conc.Out → String
+  | .ok v => s!"{v.toInt}"
+  | .error e => "E:" ++ reprStr e
+
+def showOutcome (o : List I64 × List (List Conc.Out)) : String :=
+  "[" ++ ",".intercalate (o.1.map fun v => s!"{v.toInt}") ++ "]/" ++
+    "|".intercalate (o.2.map fun t => ",".intercalate (t.map showOut))
+
+def handleConc (all : Bool) (ncells inits threads : String) : String :=
+  match ncells.toNat? with
+  | none => "(bad-request)"
+  | some n =>
+    let iv := (inits.splitOn ",").filterMap (·.toInt?)
+    let store : Conc.Store := fun k => BitVec.ofInt 64 (iv.getD k 0)
+    let progs := (threads.splitOn ";").map fun t =>
+      if t.isEmpty then some [] else (t.splitOn ",").mapM parseConcOp
+    match progs.mapM id with
+    | none => "(bad-request)"
+    | some ps =>
+      let c := Conc.Cfg.init store ps
+      let cells := List.range n
+      let total := (ps.map List.length).foldl (· + ·) 0
+      if all then
+        let outs := (Conc.allRuns cells (total + 1) c).map showOutcome
+        let uniq := outs.foldl (fun acc o => if acc.contains o then acc else o :: acc) []
+        " ".intercalate (uniq.toArray.qsort (· < ·)).toList
+      else
+        let sched := (List.range ps.length).flatMap fun i => List.replicate ((ps.getD i []).length) i
+        let f := c.run sched
+        showOutcome (cells.map f.store, f.threads.map (·.seen.reverse))
+
 def handle (line : String) : String :=
   if line.startsWith "valdebug " || line.startsWith "valparse " then handleVal line else
   if line.startsWith "repl " then handleRepl ((line.drop 5).trimAscii.toString) else
@@ -228,6 +277,8 @@ def handle (line : String) : String :=
       | "not" => s!"(i {(Gen.not.eval v).toInt})"
       | _ => "(bad-op)"
     | none => "(bad-request)"
+  | ["conc-all", n, inits, threads] => handleConc true n inits threads
+  | ["conc-seq", n, inits, threads] => handleConc false n inits threads
   | ["std1", f, a] =>
     match a.toInt? with
     | some x =>
